@@ -2054,14 +2054,14 @@ def _promote_branch_decls(
     for child_ctx, _ in branch_entries:
         base = child_ctx.get("_base_declared", set())
         new_names = child_ctx.get("var_declared", set()) - base
-        for name in new_names:
+        for name in sorted(new_names):
             record(name, child_ctx)
 
     if else_entry is not None:
         else_ctx, _ = else_entry
         base = else_ctx.get("_base_declared", set())
         new_names = else_ctx.get("var_declared", set()) - base
-        for name in new_names:
+        for name in sorted(new_names):
             record(name, else_ctx)
 
     if not order:
